@@ -101,6 +101,9 @@ func c07bindings() []c07binding {
 		out = append(out, c07binding{name: name, value: v, ok: false})
 	}
 	bad(`json.Number "abc"`, func() interface{} { return json.Number("abc") })
+	bad(`json.Number 2^63`, func() interface{} { return json.Number("9223372036854775808") })
+	bad(`json.Number MaxUint64`, func() interface{} { return json.Number("18446744073709551615") })
+	bad(`{number: json.Number 2^63+1}`, func() interface{} { return map[string]interface{}{"number": json.Number("9223372036854775809")} })
 	bad(`json.Number "1.5.5"`, func() interface{} { return json.Number("1.5.5") })
 	bad("int 5", func() interface{} { return 5 })
 	bad("nil", func() interface{} { return nil })
